@@ -10,7 +10,6 @@ fn nontrivial(t: &Trace) -> bool {
 pub fn prop() -> HistProp {
     let mut rc = RunCfg::new(&[Aspect::Outcome, Aspect::Tree, Aspect::Panic, Aspect::Budget]);
     rc.cmp_lib_every = true;
-    rc.known.dst_inside_src = crate::run::known_active("C01", "rename-dir-into-own-subtree");
     rc.known.partial_create_nospace = crate::run::known_active("C03", "partial-create-out-of-space");
     HistProp {
         id: "C01",
